@@ -123,12 +123,13 @@ func parserRangesMalformed(sc *Scenario) bool {
 }
 
 func runC14(run *Run, replay string) {
-	run.Res.Rule = "generated configuration with and without schema, typing-history states; SymbolsInFile must equal the model's outline (name, kind, range, nesting, order) built from the same syntax tree; Decoder.Symbols(query) over worlds of 1-4 paths with every subset of unreadable paths must equal the filtered union of the per-file outlines of the readable paths; direct oracle: every child's range inside its parent's (files that parse cleanly); distinct non-trivial = distinct file text with at least one symbol"
+	run.Res.Rule = "generated configuration with and without schema, typing-history states; SymbolsInFile must equal the model's outline (name, kind, range, nesting, order) built from the same syntax tree; Decoder.Symbols(query) over worlds of 1-4 paths with every subset of unreadable paths must equal the filtered union of the per-file outlines of the readable paths; direct oracle: every child's range inside its parent's (files that parse cleanly); JSON files with schema (pretty and single-line renderings of structured configurations): outline equals the written items in source order, children inside parents; distinct non-trivial = distinct file text with at least one symbol"
 	bases, hist := 70, 4
 	if run.Thorough {
 		bases, hist = 800, 20
 	}
 	ctx := context.Background()
+	c14JSON(run, bases*2)
 	for bi := 0; bi < bases; bi++ {
 		r := rand.New(rand.NewSource(subSeed(run.Res.Seed, bi)))
 		opts := ScenarioOpts{Histories: hist, Inject: bi%3 == 1, SecondPath: true}
